@@ -1,11 +1,13 @@
 CONSTANTS Menu = "quick"
           Trees <- TreeMenu
           V <- Vals
+          Concurrent = TRUE
 SPECIFICATION Spec
 INVARIANT PendingIsSubset
 INVARIANT ProgressIsSet
 INVARIANT OrderIndependent
 INVARIANT NothingLeft
 INVARIANT ShapeKept
+INVARIANT AnyOrder
 PROPERTY NoEarlyReturn
 PROPERTY Termination
